@@ -284,6 +284,8 @@ func propC14(c *Ctx) {
 		}
 	}
 
+	rrc := c.Rule("release-clears", "Release clears the invoker's child VM on every path", 1)
+	ruleReleaseClears(c, rrc)
 	rvf := c.Rule("variadic-fresh", "a function run from Go gets its variadic parameter as freshly allocated storage, like the in-script call sequence", 1)
 	ruleVariadicFresh(c, rvf, vf)
 	rf0 := c.Rule("frame0-reset", "a child VM that is invoked repeatedly starts each call from re-initialised frame state (every frame field run-time code reads is stored by Run's prologue)", 3)
@@ -453,6 +455,9 @@ func propC06(c *Ctx) {
 	rhn := c.Rule("handler-nil", "every dereference of a frame's function pointer in code the panic handler reaches is dominated by a nil test (that code runs outside any recover)", 1)
 	ruleHandlerNil(c, rhn, vf)
 
+	rdu := c.Rule("defer-unlock", "in the VM and the stdlib modules a mutex held across calls is released by a deferred Unlock (an explicit Unlock is skipped when a recovered panic unwinds through the function, leaving the VM or object locked)", 1)
+	ruleDeferUnlock(c, rdu, l.RepoFuncs(isLibPkg))
+
 	// ---- child-flag ---------------------------------------------------------------------------------------
 	rc := c.Rule("child-flag", "a child VM takes the parent's recovery flag when acquired (otherwise a panic inside a function invoked from Go skips the function's own catch/finally or escapes to the host)", 1)
 	if pf := getPoolFacts(c, rc, vf); pf != nil {
@@ -504,8 +509,23 @@ func propC09(c *Ctx) {
 	{
 		found := false
 		var pos token.Pos
+		// functions that always perform the atomic load (vm.Aborted() and the like)
+		loadsFlag := map[*ssa.Function]bool{}
+		for _, f := range l.RepoFuncs(func(pp string) bool { return pp == modPath }) {
+			if len(f.Blocks) == 1 {
+				eachInstr(f, func(x ssa.Instruction) {
+					if atomicCallOn(x, vf, fAbort, "Load") {
+						loadsFlag[f] = true
+					}
+				})
+			}
+		}
 		eachInstr(vf.loop, func(ins ssa.Instruction) {
-			if !atomicCallOn(ins, vf, fAbort, "Load") {
+			isPoll := atomicCallOn(ins, vf, fAbort, "Load")
+			if ci, ok := ins.(ssa.CallInstruction); ok && loadsFlag[ci.Common().StaticCallee()] {
+				isPoll = true
+			}
+			if !isPoll {
 				return
 			}
 			b := ins.Block()
@@ -518,7 +538,35 @@ func propC09(c *Ctx) {
 			// the load decides the branch that ends the block
 			if iff, ok := b.Instrs[len(b.Instrs)-1].(*ssa.If); ok && onCycle {
 				if derivesFrom(iff.Cond, func(v ssa.Value) bool { return v == ins.(ssa.Value) }, 3) {
-					found, pos = true, ins.Pos()
+					// the test must come before EVERY instruction dispatch: its block dominates the
+					// block that reads the opcode (curInsts[ip]) for the dispatch switch
+					domAll := true
+					fCur := vf.field("curInsts")
+					eachInstr(vf.loop, func(x ssa.Instruction) {
+						ia, ok := x.(*ssa.IndexAddr)
+						if !ok {
+							return
+						}
+						u, ok := ia.X.(*ssa.UnOp)
+						if !ok {
+							return
+						}
+						fa, ok := vf.isVMFieldAddr(u.X)
+						if !ok || fa.Field != fCur {
+							return
+						}
+						// the opcode read: index is exactly vm.ip (no +k)
+						if iu, ok := ia.Index.(*ssa.UnOp); ok {
+							if ifa, ok := vf.isVMFieldAddr(iu.X); ok && ifa.Field == vf.field("ip") {
+								if !b.Dominates(x.Block()) {
+									domAll = false
+								}
+							}
+						}
+					})
+					if domAll {
+						found, pos = true, ins.Pos()
+					}
 				}
 			}
 		})
@@ -634,6 +682,13 @@ func propC09(c *Ctx) {
 					}
 				}
 			}
+			anyTest := false
+			for _, g := range guardEdges(ci.Block()) {
+				if cl, ok := g.If.Cond.(*ssa.Call); ok && cl.Call.StaticCallee() == aborted && !g.Truth {
+					anyTest = true
+				}
+			}
+			c.Check(rcs, "Invoker.Invoke | some abort test precedes child.Run", l.Pos(ci.Pos()), anyTest, "an Aborted() test dominates the start of the child run", "the child run is started without any abort test: an Abort delivered between two Invoke calls of one invoker (while the Go callback runs Go code) is wiped by the child's reset and an endless callee never returns")
 			c.Check(rcs, "Invoker.Invoke | child.Run", l.Pos(ci.Pos()), good, "dominated by !inv.vm.Aborted()", "the child run is started after testing only the child's own flag (which Run clears at entry): an Abort of the root that ran before the child was registered is lost")
 		})
 	}
